@@ -792,7 +792,20 @@ func (u *Unit) execSlice(st *State, fr *Frame, in *ssa.Slice) {
 		p := u.ptrOf(xv)
 		u.oblige(st, "slice", "", fmt.Sprintf("(and (<= 0 %s) (<= %s %s) (<= %s %s))", lo, lo, hi, hi, n), in.Pos(), "array slice bounds", nil, "")
 		if p != nil && p.Kind == PObj && len(p.Path) == 0 {
-			fr.regs[in] = Val{T: in.Type(), Terms: []Term{p.Ref, lo, u.define(st, "sl", "Int", fmt.Sprintf("(- %s %s)", hi, lo)), u.define(st, "sc", "Int", fmt.Sprintf("(- %s %s)", n, lo))}}
+			sv := Val{T: in.Type(), Terms: []Term{p.Ref, lo, u.define(st, "sl", "Int", fmt.Sprintf("(- %s %s)", hi, lo)), u.define(st, "sc", "Int", fmt.Sprintf("(- %s %s)", n, lo))}}
+			if in.Low == nil && in.High == nil && at.Len() <= 32 {
+				var elems []Val
+				for k := int64(0); k < at.Len(); k++ {
+					ev, ok := st.info["A"+p.Ref+"|"+sInt(k)]
+					if !ok {
+						elems = nil
+						break
+					}
+					elems = append(elems, ev)
+				}
+				sv.Elems = elems
+			}
+			fr.regs[in] = sv
 		} else {
 			fr.regs[in] = u.freshVal(st, "arrslice", in.Type())
 		}
